@@ -6,6 +6,7 @@ package main
 
 import (
 	"fmt"
+	"strings"
 	"go/constant"
 	"go/token"
 	"go/types"
@@ -818,19 +819,31 @@ func (e *Engine) alloc(st *State) string {
 	return n
 }
 
+// idxTerm: index values as Int terms (mode bv: bit-vector -> integer; literals directly).
 func (e *Engine) idxTerm(v Val) string {
-	// index values are ints (mode int) or bit-vectors (mode bv -> converted to Int is not supported; indices stay bv)
-	return v.S
+	if e.mode != "bv" {
+		return v.S
+	}
+	if strings.HasPrefix(v.S, "(_ bv") {
+		var n string
+		var w int
+		if _, err := fmt.Sscanf(v.S, "(_ bv%s %d)", &n, &w); err == nil {
+			return n
+		}
+		f := strings.Fields(strings.TrimSuffix(strings.TrimPrefix(v.S, "(_ bv"), ")"))
+		if len(f) == 2 {
+			return f[0]
+		}
+	}
+	if b, ok := isInt(v.T); ok && !isUnsigned(b) {
+		return fmt.Sprintf("(ite (bvslt %s %s) (- (bv2nat (bvneg %s))) (bv2nat %s))", v.S, bvLit("0", intBits(b)), v.S, v.S)
+	}
+	return "(bv2nat " + v.S + ")"
 }
 
 func (e *Engine) inRange(i Val, n string) string {
-	if e.mode == "bv" {
-		if b, ok := isInt(i.T); ok && !isUnsigned(b) {
-			return fmt.Sprintf("(and (bvsle %s %s) (bvslt %s %s))", bvLit("0", intBits(b)), i.S, i.S, n)
-		}
-		return fmt.Sprintf("(bvult %s %s)", i.S, n)
-	}
-	return fmt.Sprintf("(and (<= 0 %s) (< %s %s))", i.S, i.S, n)
+	it := e.idxTerm(i)
+	return fmt.Sprintf("(and (<= 0 %s) (< %s %s))", it, it, n)
 }
 
 func (e *Engine) byteOfStr(s, i string, t types.Type) string {
@@ -1031,7 +1044,7 @@ func (f *Frame) execIndexAddr(in *ssa.IndexAddr, st *State) {
 	switch u := in.X.Type().Underlying().(type) {
 	case *types.Slice:
 		e.check(f, st, "no-panic.index", "slice index in range", e.inRange(i, "(s.len "+x.S+")"), in.Pos())
-		idx := e.define("idx", "Int", "(+ (s.off "+x.S+") "+i.S+")")
+		idx := e.define("idx", "Int", "(+ (s.off "+x.S+") "+e.idxTerm(i)+")")
 		f.set(in, Val{T: in.Type(), Loc: &Loc{Kind: LElem, Base: "(s.arr " + x.S + ")", Idx: idx, RootT: u.Elem()}})
 	case *types.Pointer:
 		at := u.Elem().Underlying().(*types.Array)
@@ -1042,15 +1055,15 @@ func (f *Frame) execIndexAddr(in *ssa.IndexAddr, st *State) {
 			return
 		}
 		if l.Kind == LElem && l.Idx == "" && l.Note == "array" {
-			f.set(in, Val{T: in.Type(), Loc: &Loc{Kind: LElem, Base: l.Base, Idx: i.S, RootT: at.Elem()}})
+			f.set(in, Val{T: in.Type(), Loc: &Loc{Kind: LElem, Base: l.Base, Idx: e.idxTerm(i), RootT: at.Elem()}})
 			return
 		}
 		if l.Kind == LElem && l.Note == "arrayptr" {
-			f.set(in, Val{T: in.Type(), Loc: &Loc{Kind: LElem, Base: l.Base, Idx: "(+ " + l.Idx + " " + i.S + ")", RootT: at.Elem()}})
+			f.set(in, Val{T: in.Type(), Loc: &Loc{Kind: LElem, Base: l.Base, Idx: "(+ " + l.Idx + " " + e.idxTerm(i) + ")", RootT: at.Elem()}})
 			return
 		}
 		nl := *l
-		nl.Path = append(append([]PathElem{}, l.Path...), PathElem{Field: -1, Idx: i.S, AT: u.Elem()})
+		nl.Path = append(append([]PathElem{}, l.Path...), PathElem{Field: -1, Idx: e.idxTerm(i), AT: u.Elem()})
 		f.set(in, Val{T: in.Type(), Loc: &nl})
 	default:
 		f.set(in, e.havocVal(in.Type(), "iaddr", st))
@@ -1062,13 +1075,13 @@ func (f *Frame) execSlice(in *ssa.Slice, st *State) {
 	x := f.val(in.X)
 	var lo, hi, mx string
 	if in.Low != nil {
-		lo = f.val(in.Low).S
+		lo = e.idxTerm(f.val(in.Low))
 	}
 	if in.High != nil {
-		hi = f.val(in.High).S
+		hi = e.idxTerm(f.val(in.High))
 	}
 	if in.Max != nil {
-		mx = f.val(in.Max).S
+		mx = e.idxTerm(f.val(in.Max))
 	}
 	switch u := in.X.Type().Underlying().(type) {
 	case *types.Basic: // string
@@ -1114,6 +1127,17 @@ func (f *Frame) execSlice(in *ssa.Slice, st *State) {
 			f.defval(in, fmt.Sprintf("(mk-slice %s (+ %s %s) (- %s %s) (- %s %s))", l.Base, off, lo, hi, lo, n, lo))
 			return
 		}
+		if l != nil {
+			// array stored inside a struct or cell: the slice is taken over a snapshot copy of the array
+			e.check(f, st, "no-panic.slice", "array slice bounds", fmt.Sprintf("(and (<= 0 %s) (<= %s %s) (<= %s %s))", lo, lo, hi, hi, n), in.Pos())
+			arr := e.alloc(st)
+			srt := e.sortOf(at.Elem())
+			h := e.getHeapA(st, srt)
+			st.heapA[srt] = e.define("ha", e.heapASort(srt), fmt.Sprintf("(store %s %s %s)", h, arr, e.load(st, l)))
+			e.note("array field sliced in %s: the slice views a snapshot copy (writes through the slice are not reflected in the field)", funcKey(f.fn))
+			f.defval(in, fmt.Sprintf("(mk-slice %s %s (- %s %s) (- %s %s))", arr, lo, hi, lo, n, lo))
+			return
+		}
 		e.note("slice of array behind a pointer in %s: havocked", f.fn.Name())
 		f.set(in, e.havocVal(in.Type(), "slice", st))
 	default:
@@ -1126,7 +1150,7 @@ func (f *Frame) execLookup(in *ssa.Lookup, st *State) {
 	x, k := f.val(in.X), f.val(in.Index)
 	if isString(in.X.Type()) {
 		e.check(f, st, "no-panic.index", "string index in range", e.inRange(k, "(slen "+x.S+")"), in.Pos())
-		f.defval(in, e.byteOfStr(x.S, k.S, in.Type()))
+		f.defval(in, e.byteOfStr(x.S, e.idxTerm(k), in.Type()))
 		return
 	}
 	mt := in.X.Type().Underlying().(*types.Map)
